@@ -670,10 +670,10 @@ class VPKFileSystem(FileSystem[VPKFile]):
 
     def walk_folder(self, folder: str = '') -> Iterator[File[Self]]:
         """Yield files in a folder."""
-        # All VPK files use forward slashes.
-        folder = folder.replace('\\', '/')
-        for file in self._name_to_file.values():
-            if file.dir.startswith(folder):
+        # All VPK files use forward slashes. Compare the case-folded keys, like lookups do.
+        folder = folder.replace('\\', '/').casefold()
+        for key, file in self._name_to_file.items():
+            if key.startswith(folder):
                 yield File(self, file.filename, file)
 
     def open_bin(self, name: Union[str, File[Self]]) -> BinaryIO:
